@@ -363,3 +363,9 @@ func Verif_C09_V12_CloneCopy() {
 	vnd.ObserveBytes("got1", got1)
 	vnd.ObserveBytes("got2", got2)
 }
+
+// Verif_C09_V13_StreamClones: completion through a stream clone implies matching
+// content, whichever clone arrives first and whatever the other clone does.
+//
+// symgo: maxpaths=400000
+func Verif_C09_V13_StreamClones() { verifScenarioMultiplexer() }
